@@ -26,9 +26,23 @@ pub fn budget(prop: &str, tier: &str) -> (u64, u64) {
         }
         "C12" => {
             if quick {
-                (1_500, 1)
+                (60_000, 2)
             } else {
-                (40_000, 1)
+                (1_500_000, 4)
+            }
+        }
+        "C18" => {
+            if quick {
+                (16_000, 2)
+            } else {
+                (100_000, 3)
+            }
+        }
+        "C14" | "C15" | "C16" => {
+            if quick {
+                (60_000, 3)
+            } else {
+                (1_500_000, 4)
             }
         }
         "C20" => {
@@ -69,7 +83,16 @@ pub fn nontrivial(prop: &str, chk: &Checked) -> bool {
     chk.get(prop) > 0
 }
 
-pub fn extra_monitors(_prop: &str, _h: &History, _v: &mut Vec<Violation>, _chk: &mut Checked) {}
+pub fn extra_monitors(prop: &str, h: &History, _v: &mut Vec<Violation>, chk: &mut Checked) {
+    if prop == "C12" {
+        // a C12 run is non-trivial when the injected fault actually fired in some actor while
+        // at least one other actor was running
+        let crashed = h.actors.iter().filter(|a| a.panicked() || a.run_err().is_some() || matches!(a.start_exit(), Some((_, o)) if *o != crate::world::Out::Ok) || matches!(a.stop_exit(), Some((_, o)) if *o != crate::world::Out::Ok)).count();
+        if crashed > 0 && h.actors.len() > crashed {
+            chk.hit("C12");
+        }
+    }
+}
 
 fn knobs_for(prop: &str, g: &mut G) -> (&'static str, Knobs) {
     let faulty = g.chance(300);
@@ -176,6 +199,20 @@ fn knobs_for(prop: &str, g: &mut G) -> (&'static str, Knobs) {
             k.w_clone += 6;
             k.w_drop += 8;
         }
+        "C20" => {
+            k.w_metrics = 25;
+            k.h_burn = 6;
+            k.actors = (1, 2);
+        }
+        "C14" | "C15" => {
+            // acyclic-by-construction traffic with many nested asks: no panic may ever be raised
+            k.actors = (2, 3);
+            k.h_steps = 800;
+            k.h_ask_peer = 40;
+            k.h_tell_peer = 10;
+            k.w_askt += 6;
+            k.w_cancel += 4;
+        }
         "C13" => {
             k = Knobs::faulty();
             fam = "generic-faulty";
@@ -190,9 +227,28 @@ fn knobs_for(prop: &str, g: &mut G) -> (&'static str, Knobs) {
     (fam, k)
 }
 
+/// seed of the scenario generator for run `index` (C12 shares one base scenario per block of indices)
+pub fn scenario_seed(prop: &str, seed: u64, index: u64) -> u64 {
+    if prop == "C12" {
+        crate::mix(seed ^ 0xC12, index / families::CRASH_POINTS_PER_BASE)
+    } else {
+        crate::mix(seed, index)
+    }
+}
+
 pub fn scenario(prop: &str, tier: &str, sseed: u64, index: u64) -> (&'static str, Scenario) {
+    if prop == "C12" {
+        let (sc, _, _) = families::crash_point_scenario(sseed, index);
+        return ("crash-point-enumeration", sc);
+    }
     let mut g = G::new(sseed);
     let _ = tier;
+    // C16 and C18 re-use the scenarios of the messaging / lifecycle properties
+    if prop == "C16" || prop == "C18" {
+        const POOL: [&str; 12] = ["C01", "C02", "C03", "C04", "C05", "C06", "C07", "C08", "C09", "C10", "C11", "C13"];
+        let p = POOL[g.below(POOL.len() as u64) as usize];
+        return scenario(p, tier, sseed ^ 0x00C1_6C18, index);
+    }
     // a share of every check's runs comes from the structured families of that property
     let structured = g.below(100);
     match prop {
@@ -206,6 +262,12 @@ pub fn scenario(prop: &str, tier: &str, sseed: u64, index: u64) -> (&'static str
         "C02" if structured < 30 => return ("queued-senders", families::queued_senders(&mut g)),
         "C01" if structured < 25 => return ("send-then-drop", families::send_then_drop(&mut g)),
         "C13" if structured < 30 => return ("askers-vs-ending", families::askers_vs_ending(&mut g)),
+        "C20" if structured < 60 => return ("metrics", families::metrics_family(&mut g)),
+        "C14" if structured < 60 => return ("forced-cycle", families::forced_cycle(&mut g, index)),
+        "C14" if structured < 85 => return ("racy-cycles", families::racy_cycles(&mut g)),
+        "C15" if structured < 45 => return ("temporal-acyclic", families::temporal_acyclic(&mut g)),
+        "C15" if structured < 65 => return ("racy-cycles", families::racy_cycles(&mut g)),
+        "C15" if structured < 75 => return ("forced-cycle", families::forced_cycle(&mut g, index)),
         _ => {}
     }
     let (fam, k) = knobs_for(prop, &mut g);
